@@ -40,7 +40,10 @@ type Case struct {
 	Signed bool  `json:"signed"`
 	F0     int64 `json:"f0"` // frame number of the first sample ever delivered
 	// before the (re)configuration under test
-	PreMode  int   `json:"premode"` // 0 triggers off; 1 edge-multi on with the same parameters; 2 edge-multi on, other parameters
+	// 0 triggers off; 1 edge-multi on with the same parameters; 2 edge-multi on, other parameters;
+	// 3 edge-multi on with the same parameters but other record lengths, and the reconfiguration under test is
+	//   ConfigurePulseLengths alone (edge-multi stays on, its search state must be reset)
+	PreMode  int   `json:"premode"`
 	PreNpre  int   `json:"prenpre"` // record lengths during the pre phase (0: same as Npre/Nsamp)
 	PreNsamp int   `json:"prensamp"`
 	Pre      []int `json:"pre"`
@@ -134,6 +137,7 @@ func runPart(c *Case, what string) part {
 		return r
 	}
 	// ---- pre phase
+	emtStaysOn := false
 	if c.PreMode != 0 {
 		thr, nm, mode, zt := c.Thr, c.Nmono, c.Mode, c.ZT
 		if c.PreMode == 2 {
@@ -141,7 +145,8 @@ func runPart(c *Case, what string) part {
 		}
 		ts, err := dastard.VerifEMTTriggerState(thr, nm, mode, zt)
 		if err == nil {
-			b.Source().ChangeTriggerState(&dastard.FullTriggerState{ChannelIndices: ch, TriggerState: ts})
+			err = b.Source().ChangeTriggerState(&dastard.FullTriggerState{ChannelIndices: ch, TriggerState: ts})
+			emtStaysOn = err == nil && c.PreMode == 3 && (npre0 != c.Npre || nsamp0 != c.Nsamp)
 		}
 	}
 	pre := u16(c.Pre)
@@ -160,7 +165,9 @@ func runPart(c *Case, what string) part {
 		}
 	}
 	ts, err := dastard.VerifEMTTriggerState(c.Thr, c.Nmono, c.Mode, c.ZT)
-	if err != nil {
+	if emtStaysOn {
+		// ConfigurePulseLengths alone was the reconfiguration
+	} else if err != nil {
 		p.Rejected = true
 		p.Err = err.Error()
 	} else if err := b.Source().ChangeTriggerState(&dastard.FullTriggerState{ChannelIndices: ch, TriggerState: ts}); err != nil {
@@ -237,6 +244,9 @@ func render(c *Case, pre, pa, pb *part, crashA, crashB bool) lib.Result {
 	}
 	if c.PreMode != 0 {
 		tags["reconfigured-with-leftover-state"] = true
+	}
+	if c.PreMode == 3 {
+		tags["reconfigured-by-pulse-lengths-only"] = true
 	}
 	if c.Signed {
 		tags["signed"] = true
